@@ -172,6 +172,8 @@ pub struct Agg {
     pub fault_kinds: BTreeMap<String, u64>,
     pub steps: u64,
     pub not_dispatched: u64,
+    pub max_cpu_s: f64,
+    pub sum_cpu_s: f64,
 }
 
 impl Agg {
@@ -189,6 +191,8 @@ impl Agg {
             fault_kinds: BTreeMap::new(),
             steps: 0,
             not_dispatched: 0,
+            max_cpu_s: 0.0,
+            sum_cpu_s: 0.0,
         }
     }
 }
@@ -310,7 +314,7 @@ pub fn cpu_budget(tier: &str) -> f64 {
     std::env::var("RSSV_CPU_BUDGET")
         .ok()
         .and_then(|s| s.parse().ok())
-        .unwrap_or(if tier == "thorough" { 30.0 } else { 10.0 })
+        .unwrap_or(if tier == "thorough" { 60.0 } else { 30.0 })
 }
 
 /// Execute one explicit case in a fresh worker process; returns violations (prop, check, msg)
@@ -417,6 +421,8 @@ pub fn run_check(prop: &str, tier: &str) -> i32 {
                 record(&mut agg, prop, batch.profile, j + job_base, seeds[j], r, case_for_timeout.as_ref());
             }
         }
+        agg.max_cpu_s = agg.max_cpu_s.max(pool.max_cpu_s);
+        agg.sum_cpu_s += pool.sum_cpu_s;
         pool.shutdown();
     }
 
@@ -577,6 +583,7 @@ fn write_evidence(
             "probes": agg.probes,
             "fault_kinds": agg.fault_kinds,
             "logical_steps": agg.steps,
+            "cpu_seconds_per_run": {"mean": if agg.evaluations > 0 { agg.sum_cpu_s / agg.evaluations as f64 } else { 0.0 }, "max": agg.max_cpu_s, "budget": cpu_budget(tier), "note": "CPU time of the worker process between dispatch and answer (all pool threads); a run over budget is re-run once alone with twice the budget before it counts"},
             "simulated_time": "not applicable: the system has no timers or deadlines; logical steps are counted instead",
             "profiles": batches.iter().map(|b| b.profile).collect::<Vec<_>>(),
             "workers_histogram_of_sampled_runs": agg.workers_hist,
